@@ -33,6 +33,7 @@ type ConfOpts struct {
 	QuotaPreempt bool // set quota preemption delays and the partition flag
 	WideTrees    bool // 3-5 children per parent (sorting needs several candidates)
 	FewPrioProps bool // priority offsets and priority fences are rare (the crisp priority rule of preemption applies)
+	TightLimits  bool // user/group resource limits of 4-14 while queue maxima stay loose (limits bite, queues do not)
 	GuarScenario bool // the situation queue preemption is about: maxima are rare, most queues have a small guaranteed share for memory and vcore
 }
 
@@ -198,6 +199,10 @@ func (g *confGen) genLimits(path string, ownMax Res, maxApps uint64, isRoot bool
 					if g.o.TightQuota {
 						hi = 10
 					}
+					lo := int64(1)
+					if g.o.TightLimits {
+						hi, lo = 14, 4
+					}
 					if v, ok := ownMax[k]; ok && !isRoot && v < hi {
 						hi = v
 					}
@@ -209,7 +214,10 @@ func (g *confGen) genLimits(path string, ownMax Res, maxApps uint64, isRoot bool
 					if hi < 1 {
 						continue
 					}
-					lres[k] = rapid.Int64Range(1, hi).Draw(g.t, lbl+"-"+k)
+					if lo > hi {
+						lo = hi
+					}
+					lres[k] = rapid.Int64Range(lo, hi).Draw(g.t, lbl+"-"+k)
 				}
 			}
 			if len(lres) == 0 {
